@@ -72,11 +72,12 @@ def gen_scenarios(spec, rng, n):
     out = []
     for i in range(n):
         client = rng.choice(["sync", "async", "async"])
-        nact = 1 if client == "sync" else rng.choice([1, 2, 3, 4])
+        from ..rng import deep
+        nact = 1 if client == "sync" else rng.choice([1, 2, 3, 4, 6] if deep() else [1, 2, 3, 4])
         if client == "sync" and rng.random() < 0.3:
             nact = 2        # two sequential actors = two clients in one process when clients == per_actor
         actors = [{"start": 0.0, "ops": []} for _ in range(nact)]
-        nops = rng.randint(1, 5) if nact == 1 else nact + rng.randint(0, 3)
+        nops = rng.randint(1, 10 if deep() else 5) if nact == 1 else nact + rng.randint(0, 6 if deep() else 3)
         for j in range(nops):
             fs, s, m, k = rng.choice(cands)
             actors[j % nact]["ops"].append(gen_op(spec, rng, codec, fs, s, m, k, f"o{j}", client))
